@@ -9,6 +9,7 @@ package modifiers
 //@   requires m != nil && contact != nil && EngRep(eng) && eng.(*engine.engine).options.MaxFieldChars >= 0
 //@   assigns contact.name, effects(flows.EventCallback)
 //@   ensures [modified_iff_changed] result <==> contact.name != old(contact.name)
+//@   ensures [decides] result <==> old(contact.name) != sp_truncate(m.Name, eng.(*engine.engine).options.MaxFieldChars)
 //@   ensures [value] contact.name == (result ? sp_truncate(m.Name, eng.(*engine.engine).options.MaxFieldChars) : old(contact.name))
 //@   ensures [event] result ==> (len(ghost.evlog) == old(len(ghost.evlog)) + 1 && typeis(last(ghost.evlog), *events.ContactNameChangedEvent) && last(ghost.evlog).(*events.ContactNameChangedEvent).Name == contact.name)
 //@   ensures [no_event] !result ==> ghost.evlog == old(ghost.evlog)
